@@ -11,6 +11,7 @@ mod svm;
 mod world1;
 mod world2;
 mod world2x;
+mod world2n;
 
 use engine::{Ctx, Tier};
 
